@@ -66,8 +66,8 @@ Section RegionFacts.
   (* projections / setters only: never unfold the region functions *)
   Ltac csimpl :=
     cbn [cM cC cDX cDY cR cUseCopy cShape cCurChanged cReady cCurX cCurY cSliceY cUseNewFB cUseExt
-         cNewFBPending cReqChange cLastErr cBpp cPW cPH cPic
-         set_regions set_M set_flags set_curpos set_slice set_size_state set_pic mark_client] in *.
+         cNewFBPending cReqChange cLastErr cBpp cPW cPH cPic cExt
+         set_regions set_M set_flags set_curpos set_slice set_size_state set_pic set_cext set_bpp mark_client] in *.
 
   Lemma rect_rgn_wf rc : rect_nonempty rc -> WF (rect_rgn rc).
   Proof. destruct rc as [[[x1 y1] x2] y2]. cbn. intros [? ?]. apply create_rect_wf; assumption. Qed.
@@ -216,7 +216,7 @@ Section RegionFacts.
                           (r_sub cC (rgn_create_rect x y (x + w') (y + h'))) cDX cDY
                           (rgn_or cR (rgn_create_rect x y (x + w') (y + h')))
                           cUseCopy cShape cCurChanged true cCurX cCurY cSliceY cUseNewFB cUseExt
-                          (if cUseExt then true else cNewFBPending) cReqChange cLastErr cBpp cPW cPH cPic)).
+                          (if cUseExt then true else cNewFBPending) cReqChange cLastErr cBpp cPW cPH cPic cExt)).
       { constructor; csimpl; try assumption; try wf.
         - intros x0 y0 Hm. msimp_in Hm. apply orb_true_iff in Hm. destruct Hm as [Hm|Hm]; [auto|].
           unfold rect_mem in Hm. unfold inS. lia.
@@ -230,7 +230,7 @@ Section RegionFacts.
                           (r_sub cC (rgn_create_rect x y (x + w') (y + h'))) cDX cDY
                           (rgn_or cR (rgn_create_rect x y (x + w') (y + h')))
                           cUseCopy cShape cCurChanged true cCurX cCurY cSliceY cUseNewFB cUseExt
-                          (if cUseExt then true else cNewFBPending) cReqChange cLastErr cBpp cPW cPH cPic)).
+                          (if cUseExt then true else cNewFBPending) cReqChange cLastErr cBpp cPW cPH cPic cExt)).
       { unfold SizeOK in *. csimpl. destruct S as [?|[? ?]]; [left; assumption|right]. split; [assumption|]. destruct cUseExt; [reflexivity|assumption]. }
       destruct cUseExt; split; assumption.
   Qed.
@@ -553,7 +553,7 @@ Section RegionFacts.
     send_update st c sy C1 U2 sendShape = Some (c', m) ->
     InvCore (sW st) (sH st) (fb_for st c) c' /\ SizeOK (sW st) (sH st) c' /\ cBpp c' = cBpp c.
   Proof.
-    intros HW HH I Hpw Hph EC1 HU2. unfold send_update.
+    intros HW HH I Hpw Hph EC1 HU2. unfold send_update, send_update_gen.
     pose proof (iWM _ _ _ _ I) as HWM. pose proof (iWC _ _ _ _ I) as HWC. pose proof (iWR _ _ _ _ I) as HWR.
     assert (HC1 : WF C1) by (subst C1; wf).
     set (UC := r_and (r_and C1 (cR c)) (rgn_offset (cR c) (cDX c) (cDY c))).
@@ -619,9 +619,11 @@ Section RegionFacts.
     InvC (sW st) (sH st) (fb_for st c) c -> send_client st c = Some (c', m) ->
     InvC (sW st) (sH st) (fb_for st c) c' /\ cBpp c' = cBpp c.
   Proof.
-    intros HW HH [I S]. unfold send_client.
+    intros HW HH [I S]. unfold send_client, send_client_gen.
+    destruct (scaled_guard c); [discriminate|].
     destruct (cUseNewFB c && cNewFBPending c) eqn:Esc.
     - (* size short-circuit *)
+      destruct (announced_size st c) as [aw ah].
       intros Hs; inversion Hs; subst. split; [split|].
       + apply core_resize. apply (core_ext _ _ _ c); try (destruct c; reflexivity). exact I.
       + apply resize_size.
@@ -737,6 +739,106 @@ Section RegionFacts.
     unfold copy_simul, fbf. cbn. destruct (rgn_mem K x y); reflexivity.
   Qed.
 
+  (* the deferral timer / scaled-screen fields never matter for the invariant *)
+  Lemma inv_set_cext W H F c e : InvC W H F c -> InvC W H F (set_cext c e).
+  Proof.
+    intros [I S]. split; [apply (core_ext _ _ _ c); try (destruct c; reflexivity); exact I|].
+    unfold SizeOK in *. destruct c; csimpl. exact S.
+  Qed.
+
+  (* rfbUpdateClient: whatever the clock says (deferring, not deferring, sending late, the clock
+     running backwards), the invariant is kept: a deferred update is not lost, it stays in M / C / R *)
+  Lemma inv_tick st c c' m :
+    0 < sW st -> 0 < sH st ->
+    InvC (sW st) (sH st) (fb_for st c) c -> tick_client st c = Some (c', m) ->
+    InvC (sW st) (sH st) (fb_for st c) c' /\ cBpp c' = cBpp c.
+  Proof.
+    intros HW HH Ic. unfold tick_client.
+    destruct (scaled_guard c); [discriminate|].
+    destruct (pending st c && negb (rgn_is_empty (cR c))); [|intros Hs; inversion Hs; subst; auto].
+    destruct (xDefer (sExt st) =? 0); [apply inv_send; assumption|].
+    destruct (xDefU (cExt c) =? 0).
+    - intros Hs; inversion Hs; subst. split; [apply inv_set_cext; exact Ic|destruct c; reflexivity].
+    - destruct ((xNowS (sExt st) <? xDefS (cExt c)) || (elapsed_ms st c >? xDefer (sExt st)));
+        [|intros Hs; inversion Hs; subst; auto].
+      intros Hs.
+      set (c0 := set_cext c (mkCExt (xDefS (cExt c)) 0 (cScaled c))) in *.
+      assert (E0 : fb_for st c0 = fb_for st c) by (unfold fb_for, c0; destruct c; reflexivity).
+      assert (I0 : InvC (sW st) (sH st) (fb_for st c0) c0) by (rewrite E0; apply inv_set_cext; exact Ic).
+      destruct (inv_send st c0 c' m HW HH I0 Hs) as [G1 G2]. rewrite E0 in G1.
+      split; [exact G1|]. rewrite G2. destruct c; reflexivity.
+  Qed.
+
+  (* when everything is marked modified the pixel clause of the invariant is void: any F will do *)
+  Lemma core_F_irrelevant W H F F' c :
+    (forall x y, inS W H x y -> rgn_mem (cM c) x y = true) -> InvCore W H F c -> InvCore W H F' c.
+  Proof.
+    intros Hall I. destruct I. constructor; try assumption.
+    intros Hw Hh x y Hs Hm. rewrite (Hall _ _ Hs) in Hm. discriminate.
+  Qed.
+
+  (* SetPixelFormat + non-incremental request of the whole screen *)
+  Lemma inv_setpf st F F' bpp c :
+    0 < sW st -> 0 < sH st ->
+    InvC (sW st) (sH st) F c -> InvC (sW st) (sH st) F' (setpf_client st bpp c) /\
+    cBpp (setpf_client st bpp c) = bpp.
+  Proof.
+    intros HW HH [I S]. unfold setpf_client.
+    set (c1 := set_flags (set_bpp c bpp) (cUseCopy c) (cShape c) (cCurChanged c) true (cUseNewFB c) (cUseExt c)).
+    assert (I1 : InvC (sW st) (sH st) F c1).
+    { split; [apply (core_ext _ _ _ c); try (destruct c; reflexivity); exact I|].
+      unfold SizeOK in *. destruct c; csimpl. exact S. }
+    assert (Hok : req_ok (sW st) (sH st) 0 0 (sW st) (sH st)) by (unfold req_ok; lia).
+    destruct (inv_request _ _ F c1 false 0 0 (sW st) (sH st) I1 Hok) as [I2 S2].
+    assert (Hclip : req_clip (sW st) (sH st) 0 0 (sW st) (sH st) = Some (0, 0, sW st, sH st)).
+    { unfold req_clip. destruct (sW st >? sW st - 0) eqn:E1; [lia|]. destruct (sH st >? sH st - 0) eqn:E2; [lia|].
+      cbv zeta. rewrite E1, E2. reflexivity. }
+    assert (Hall : forall x y, inS (sW st) (sH st) x y ->
+                     rgn_mem (cM (request_client (sW st) (sH st) false 0 0 (sW st) (sH st) c1)) x y = true).
+    { intros x y Hxy. pose proof (iWM _ _ _ _ (proj1 I1)) as HWM.
+      assert (Ht : WF (rgn_create_rect 0 0 (0 + sW st) (0 + sH st))) by (apply create_rect_wf; lia).
+      unfold request_client. rewrite Hclip. replace ((sW st =? 0) || (sH st =? 0)) with false by lia.
+      unfold c1 in *. destruct c; csimpl. destruct cUseExt; csimpl; msimp;
+        unfold rect_mem, inS in *; replace ((0 <=? x) && (x <? 0 + sW st) && (0 <=? y) && (y <? 0 + sH st)) with true by lia;
+        apply orb_true_r. }
+    split; [split; [apply core_F_irrelevant with (F := F); assumption|exact S2]|].
+    unfold request_client. rewrite Hclip. replace ((sW st =? 0) || (sH st =? 0)) with false by lia.
+    unfold c1. destruct c; csimpl. destruct cUseExt; reflexivity.
+  Qed.
+
+  (* SetScale: bookkeeping only (size message pending / resize message sent, chain extended) *)
+  Lemma inv_setscale st F n c e' c' m :
+    InvC (sW st) (sH st) F c -> setscale_client st n c = (e', c', m) ->
+    InvC (sW st) (sH st) F c' /\ cBpp c' = cBpp c.
+  Proof.
+    intros [I S]. unfold setscale_client. cbv zeta.
+    set (w := Z.quot (sW st) n). set (h := Z.quot (sH st) n).
+    set (ok := (w =? sW st) && (h =? sH st) || existsb (fun '(a, b) => (a =? w) && (b =? h)) (xChain (sExt st))
+               || negb ((w =? 0) || (h =? 0))).
+    set (c1 := if ok then _ else c).
+    assert (I1 : InvCore (sW st) (sH st) F c1 /\ cBpp c1 = cBpp c /\ cUseNewFB c1 = cUseNewFB c /\
+                 cPW c1 = cPW c /\ cPH c1 = cPH c /\ (cNewFBPending c1 = true \/ c1 = c)).
+    { unfold c1. destruct ok.
+      - split; [apply (core_ext _ _ _ c); try (destruct c; reflexivity); exact I|].
+        destruct c; csimpl. split; [reflexivity|]. split; [reflexivity|]. split; [reflexivity|].
+        split; [reflexivity|]. left. reflexivity.
+      - split; [exact I|]. split; [reflexivity|]. split; [reflexivity|]. split; [reflexivity|].
+        split; [reflexivity|]. right. reflexivity. }
+    destruct I1 as (I1 & B1 & U1 & W1 & H1 & P1).
+    destruct (cUseNewFB c1 && cNewFBPending c1) eqn:E.
+    - intros Hs; inversion Hs; subst. split; [split; [exact I1|]|exact B1].
+      apply andb_true_iff in E. destruct E as [Ea Eb]. right. split; assumption.
+    - destruct (announced_size st c1) as [aw ah]. intros Hs; inversion Hs; subst.
+      split; [split|].
+      + apply (core_ext _ _ _ c1); try (destruct c1; reflexivity). exact I1.
+      + (* no size message can be pending for this client: its picture has the right size *)
+        assert (Hsz : cPW c = sW st /\ cPH c = sH st).
+        { destruct S as [?|[Ha Hb]]; [assumption|]. rewrite U1, Ha in E.
+          destruct P1 as [P1|P1]; [rewrite P1 in E; discriminate|]. rewrite P1, Hb in E. discriminate. }
+        left. destruct c1; csimpl. subst. exact Hsz.
+      + rewrite <- B1. destruct c1; reflexivity.
+  Qed.
+
   Lemma step_inv st o st' out : Inv st -> op_ok st o -> step st o = Some (st', out) -> Inv st'.
   Proof.
     intros HI Hok Hs. pose proof HI as (HW & HH & Hcur & Hcl).
@@ -756,7 +858,7 @@ Section RegionFacts.
       destruct (mark_clip (sW st) (sH st) x1 y1 x2 y2) as [rc|] eqn:Emc; inversion Hs; subst; [|exact HI].
       unfold Inv. destruct st; cbn in *. repeat split; try assumption.
       apply Forall_map. eapply Forall_impl; [|exact Hcl]. intros c I. cbn in I.
-      apply invc_Fext with (F := fb_for (mkState sW sH sBpp sFBid sFB sCursor sCurX sCurY sMaxRects sSliceH sClients) c).
+      apply invc_Fext with (F := fb_for (mkState sW sH sBpp sFBid sFB sCursor sCurX sCurY sMaxRects sSliceH sClients sExt) c).
       { intros x y _. unfold fb_for, fbf. destruct c; reflexivity. }
       destruct (mark_clip_inside _ _ _ _ _ _ _ Emc) as [Hne Hrin].
       apply (inv_mark _ _ _ _ c (rect_rgn rc) I); [apply rect_rgn_wf; exact Hne| |auto].
@@ -766,7 +868,7 @@ Section RegionFacts.
       unfold Inv. destruct st; cbn in *. repeat split; try assumption.
       apply Forall_map. eapply Forall_impl; [|exact Hcl]. intros c I. cbn in I.
       destruct (mark_clip_inside _ _ _ _ _ _ _ Emc) as [Hne Hrin].
-      apply (inv_mark _ _ (fb_for (mkState sW sH sBpp sFBid sFB sCursor sCurX sCurY sMaxRects sSliceH sClients) c) _ c (rect_rgn rc) I);
+      apply (inv_mark _ _ (fb_for (mkState sW sH sBpp sFBid sFB sCursor sCurX sCurY sMaxRects sSliceH sClients sExt) c) _ c (rect_rgn rc) I);
         [apply rect_rgn_wf; exact Hne| |].
       + intros x y Hm. rewrite rect_rgn_mem in Hm. auto.
       + intros x y Hxy Hm. rewrite rect_rgn_mem in Hm. unfold fb_for, fbf. cbn.
@@ -790,8 +892,10 @@ Section RegionFacts.
       unfold Inv. destruct st; cbn in *. repeat split; try assumption.
       eapply Forall_upd_nth; [exact Eu| | |exact Hcl].
       + intros a Ia. exact Ia.
-      + intros a a' m' Ha Ia. inversion Ha; subst. cbn in Ia.
-        apply invc_Fext with (F := fb_for (mkState sW sH sBpp sFBid sFB sCursor sCurX sCurY sMaxRects sSliceH sClients) a).
+      + intros a a' m' Ha Ia.
+        cbv beta in Ha. destruct (cScaled a); [discriminate|].
+        inversion Ha; subst. cbn in Ia.
+        apply invc_Fext with (F := fb_for (mkState sW sH sBpp sFBid sFB sCursor sCurX sCurY sMaxRects sSliceH sClients sExt) a).
         { intros x0 y0 _. unfold fb_for, fbf. cbn. f_equal. unfold request_client.
           destruct (req_clip sW sH x y w h) as [[[[? ?] ?] ?]|]; [|reflexivity].
           destruct (_ || _); [reflexivity|].
@@ -803,7 +907,7 @@ Section RegionFacts.
       eapply Forall_upd_nth; [exact Eu| | |exact Hcl].
       + intros a Ia. exact Ia.
       + intros a a' m' Ha Ia. inversion Ha; subst. cbn in Ia.
-        set (st0 := mkState sW sH sBpp sFBid sFB sCursor sCurX sCurY sMaxRects sSliceH sClients) in *.
+        set (st0 := mkState sW sH sBpp sFBid sFB sCursor sCurX sCurY sMaxRects sSliceH sClients sExt) in *.
         apply invc_Fext with (F := fb_for st0 a).
         { intros x0 y0 _. unfold fb_for. f_equal. unfold setenc_client.
           repeat match goal with
@@ -867,12 +971,8 @@ Section RegionFacts.
       eapply Forall_upd_nth with (P := fun c => InvC (sW st) (sH st) (fb_for st c) c); [exact Eu| | |exact Hcl].
       + intros a Ia. apply invc_Fext with (F := fb_for st a); [|exact Ia].
         intros x y _. unfold fb_for. destruct st; reflexivity.
-      + intros a a' m' Ha Ia. unfold tick_client in Ha.
-        assert (G : InvC (sW st) (sH st) (fb_for st a) a' /\ cBpp a' = cBpp a).
-        { destruct (pending st a && negb (rgn_is_empty (cR a))).
-          - apply (inv_send st a a' m'); assumption.
-          - inversion Ha; subst. split; [exact Ia|reflexivity]. }
-        destruct G as [G1 G2]. apply invc_Fext with (F := fb_for st a); [|exact G1].
+      + intros a a' m' Ha Ia.
+        destruct (inv_tick st a a' m' HW HH Ia Ha) as [G1 G2]. apply invc_Fext with (F := fb_for st a); [|exact G1].
         intros x y _. unfold fb_for. rewrite G2. destruct st; reflexivity.
     - (* Send *)
       destruct (upd_nth c (sClients st) (send_client st)) as [[l m]|] eqn:Eu; [|discriminate]. inversion Hs; subst.
@@ -939,6 +1039,44 @@ Section RegionFacts.
       + constructor; [apply Hone; assumption|]. apply Forall_map. eapply Forall_impl; [|eassumption].
         intros a0 Ia0. apply Hone. exact Ia0.
       + constructor; [apply Hone; assumption|apply IH; assumption].
+    - (* Time *)
+      inversion Hs; subst. unfold Inv. destruct st; cbn in *. repeat split; try assumption.
+    - (* Defer *)
+      inversion Hs; subst. unfold Inv. destruct st; cbn in *. repeat split; try assumption.
+    - (* SetPixelFormat *)
+      destruct ((bpp =? 1) || (bpp =? 2) || (bpp =? 4)); [|discriminate].
+      destruct (upd_nth c (sClients st) _) as [[l m]|] eqn:Eu; [|discriminate]. inversion Hs; subst.
+      unfold Inv.
+      replace (sW (set_clients st l)) with (sW st) by (destruct st; reflexivity).
+      replace (sH (set_clients st l)) with (sH st) by (destruct st; reflexivity).
+      replace (sCursor (set_clients st l)) with (sCursor st) by (destruct st; reflexivity).
+      replace (sClients (set_clients st l)) with l by (destruct st; reflexivity).
+      repeat split; try assumption.
+      eapply Forall_upd_nth with (P := fun c => InvC (sW st) (sH st) (fb_for st c) c); [exact Eu| | |exact Hcl].
+      + intros a Ia. apply invc_Fext with (F := fb_for st a); [|exact Ia].
+        intros x y _. unfold fb_for. destruct st; reflexivity.
+      + intros a a' m' Ha Ia. cbv beta in Ha. destruct (cScaled a); [discriminate|]. inversion Ha; subst.
+        apply (inv_setpf st (fb_for st a) _ bpp a HW HH Ia).
+    - (* SetScale *)
+      destruct (scale <=? 0); [discriminate|].
+      destruct (nth_error (sClients st) c) as [cl|] eqn:En; [|discriminate].
+      destruct (setscale_client st scale cl) as [[e' cl'] m] eqn:Ess.
+      destruct (upd_nth c (sClients st) _) as [[l m0]|] eqn:Eu; [|discriminate]. inversion Hs; subst.
+      unfold Inv.
+      replace (sW (set_sext (set_clients st l) e')) with (sW st) by (destruct st; reflexivity).
+      replace (sH (set_sext (set_clients st l) e')) with (sH st) by (destruct st; reflexivity).
+      replace (sCursor (set_sext (set_clients st l) e')) with (sCursor st) by (destruct st; reflexivity).
+      replace (sClients (set_sext (set_clients st l) e')) with l by (destruct st; reflexivity).
+      repeat split; try assumption.
+      assert (Icl : InvC (sW st) (sH st) (fb_for st cl) cl).
+      { rewrite Forall_forall in Hcl. apply Hcl. eapply nth_error_In; eassumption. }
+      destruct (inv_setscale st _ _ _ _ _ _ Icl Ess) as [G1 G2].
+      eapply Forall_upd_nth with (P := fun c => InvC (sW st) (sH st) (fb_for st c) c); [exact Eu| | |exact Hcl].
+      + intros a Ia. apply invc_Fext with (F := fb_for st a); [|exact Ia].
+        intros x y _. unfold fb_for. destruct st; reflexivity.
+      + intros a a' m' Ha _. inversion Ha; subst.
+        apply invc_Fext with (F := fb_for st cl); [|exact G1].
+        intros x y _. unfold fb_for. rewrite G2. destruct st; reflexivity.
   Qed.
 
   (* run-level: validity of every operation in the state where it is executed *)
